@@ -283,3 +283,28 @@ Definition denote (b : body) : option effect :=
   | Some G => elab_eff G isp (ret b)
   | None => None
   end.
+
+(* ---------------------------------------------------------------- diagnostics (symptoms of a failing check) *)
+Local Open Scope list_scope.
+Definition head_of (e : sexp) : string := match e with SApp h _ => h | SVar x => x | _ => "" end.
+(* declarations that violate ownership: (kind tag, head of the initialiser, #raw uses, #uses) *)
+Definition linear_offenders (b : body) : list (N * string * nat * nat) :=
+  let us := all_uses b in
+  flat_map (fun d => if owned_ok us d then [] else [(dkind_tag (dk d), head_of (dinit d), count_raw (dname d) us, count_any (dname d) us)]) (decls b)
+  ++ flat_map (fun p : string * bool => if snd p && negb (Nat.leb (count_raw (fst p) us) 1) then [(9%N, fst p, count_raw (fst p) us, count_any (fst p) us)] else []) (params b).
+(* well-formedness symptoms: "undeclared:x", "invalid-identifier:x", "redeclared:x", "seqn-arity:x" *)
+Fixpoint wf_offenders_decls (declared : list string) (ds : list decl) : list string * list string :=
+  match ds with
+  | [] => ([], declared)
+  | d :: t =>
+      let bad :=
+        (if valid_ident (dname d) then [] else [String.append "invalid-identifier:" (dname d)])
+        ++ (if mem_str (dname d) declared then [String.append "redeclared:" (dname d)] else [])
+        ++ flat_map (fun u : string * bool => if mem_str (fst u) declared || is_plugin_name (fst u) then [] else [String.append "undeclared:" (fst u)]) (uses false (dinit d))
+        ++ (if seqn_ok (dinit d) then [] else [String.append "seqn-arity:" (dname d)]) in
+      let '(rest, dd) := wf_offenders_decls (dname d :: declared) t in (bad ++ rest, dd)
+  end.
+Definition wf_offenders (b : body) : list string :=
+  let '(bad, declared) := wf_offenders_decls (map fst (params b)) (decls b) in
+  bad ++ flat_map (fun u : string * bool => if mem_str (fst u) declared || is_plugin_name (fst u) then [] else [String.append "undeclared:" (fst u)]) (uses false (ret b))
+      ++ (if seqn_ok (ret b) then [] else ["seqn-arity:return"]).
